@@ -194,6 +194,8 @@ use super::session::{GoRec, Hist, RefSession};
 
 pub struct GoView<'a> {
     pub idx: usize,
+    /// did the input thread come back for the next line after this go?
+    pub line_returned: bool,
     pub go: &'a GoRec,
     pub text: &'a str,
     pub limits: Limits,
@@ -220,6 +222,7 @@ pub fn go_views(h: &Hist) -> Vec<GoView<'_>> {
             });
             out.push(GoView {
                 idx: gi,
+                line_returned: l.t0_yields_back.is_some(),
                 go: g,
                 text: &l.text,
                 limits: Limits::parse(&l.text).unwrap_or_default(),
@@ -257,10 +260,23 @@ pub fn check_answers(views: &[GoView<'_>], out: &mut Outcome, prop_tag: &str) {
             }
             continue;
         }
-        if g.tid.is_none() {
-            // rejected by the parser (malformed go) – not this oracle's business
-            out.stats.inc("go_not_started");
+        if g.tid.is_none() && !g.inline {
+            if g.parse_error {
+                // rejected by the parser with a diagnostic (malformed go) – not this oracle's business
+                out.stats.inc("go_rejected_by_parser");
+            } else if h_line_returned(v) {
+                out.violations.push(Violation::new(
+                    "go_ignored",
+                    format!(
+                        "go #{} ({:?}) was consumed without a search, a bestmove or a diagnostic",
+                        v.idx, v.text
+                    ),
+                ));
+            }
             continue;
+        }
+        if g.inline {
+            out.stats.inc("reach.go_answered_by_input_thread");
         }
         if g.bestmoves.len() > 1 {
             out.violations.push(Violation::new(
@@ -289,7 +305,7 @@ pub fn check_answers(views: &[GoView<'_>], out: &mut Outcome, prop_tag: &str) {
                     format!("go #{} printed info after its bestmove", v.idx),
                 ));
             }
-        } else if g.thread_ended {
+        } else if g.thread_ended && g.tid.is_some() {
             let why = match &g.panic {
                 Some(m) => format!("search thread panicked: {m}"),
                 None => "search thread returned silently".to_string(),
@@ -318,4 +334,8 @@ pub fn panic_kind(prefix: &str, msg: &str) -> String {
         Some((_, loc)) if !loc.is_empty() => format!("{prefix}@{loc}"),
         _ => prefix.to_string(),
     }
+}
+
+fn h_line_returned(v: &GoView<'_>) -> bool {
+    v.line_returned
 }
